@@ -19,6 +19,9 @@ import io
 import os
 
 REAL_OPEN = builtins.open
+REAL_OS_OPEN = os.open
+REAL_OS_WRITE = os.write
+REAL_OS_CLOSE = os.close
 
 
 class SimCrash(BaseException):
@@ -64,7 +67,7 @@ class SimFile:
 
     def _raw_write(self, mv):
         while len(mv):
-            w = os.write(self.fd, mv)
+            w = REAL_OS_WRITE(self.fd, mv)
             mv = mv[w:]
             self.written += w
 
@@ -129,6 +132,12 @@ class SimFile:
     def flush(self):
         pass
 
+    def truncate(self, size=None):
+        if size is None:
+            size = os.lseek(self.fd, 0, os.SEEK_CUR)
+        os.ftruncate(self.fd, size)
+        return size
+
     def fileno(self):
         return self.fd
 
@@ -150,7 +159,8 @@ class SimFile:
     def close(self):
         if not self.closed:
             self.closed = True
-            os.close(self.fd)
+            self.fs.raw_fds.pop(self.fd, None)
+            REAL_OS_CLOSE(self.fd)
             f = self.fs.armed
             if f and f['kind'] == 'crash_write' and not f.get('fired') and self.writable():
                 # every byte reached the file, the process dies before returning
@@ -173,7 +183,7 @@ class SimFile:
         if not self.closed:
             self.closed = True
             try:
-                os.close(self.fd)
+                REAL_OS_CLOSE(self.fd)
             except OSError:
                 pass
 
@@ -210,16 +220,23 @@ class SimFS:
         self.log: list[tuple[str, str]] = []  # (relative path, mode) of every open during current op
         self.write_calls = 0
         self.installed = False
+        self.raw_fds: dict = {}  # fd -> [path, bytes written] for cache files opened for writing with os.open()
 
     # -- installation -------------------------------------------------
     def install(self):
         builtins.open = self.open
         io.open = self.open
+        os.open = self.os_open
+        os.write = self.os_write
+        os.close = self.os_close
         self.installed = True
 
     def uninstall(self):
         builtins.open = REAL_OPEN
         io.open = REAL_OPEN
+        os.open = REAL_OS_OPEN
+        os.write = REAL_OS_WRITE
+        os.close = REAL_OS_CLOSE
         self.installed = False
 
     # -- per-op bookkeeping ------------------------------------------
@@ -234,9 +251,62 @@ class SimFS:
         self.armed = None
         return f
 
+    # -- the seam, system-call level (code that bypasses open(): os.open + os.fdopen / os.write) ------------------
+    def os_open(self, path, flags, mode=0o777, *, dir_fd=None):
+        fd = REAL_OS_OPEN(path, flags, mode, dir_fd=dir_fd) if dir_fd is not None else REAL_OS_OPEN(path, flags, mode)
+        try:
+            p = os.fspath(path)
+            p = p.decode() if isinstance(p, bytes) else p
+            if dir_fd is None and is_cache(p):
+                acc = flags & (os.O_WRONLY | os.O_RDWR)
+                self.log.append((p, 'os.open:' + ('w' if acc else 'r')))
+                if acc:
+                    self.raw_fds[fd] = [p, 0]
+                    self.op_write_opens = getattr(self, 'op_write_opens', 0) + 1
+        except TypeError:
+            pass
+        return fd
+
+    def os_write(self, fd, data):
+        ent = self.raw_fds.get(fd)
+        if ent is None:
+            return REAL_OS_WRITE(fd, data)
+        mv = memoryview(data).cast('B')
+        n = len(mv)
+        f = self.armed
+        self.write_calls += 1
+        if f and f['kind'] in ('crash_write', 'enospc', 'eio_write') and not f.get('fired') and ent[1] + n > f['k']:
+            keep = max(0, f['k'] - ent[1])
+            if keep:
+                REAL_OS_WRITE(fd, mv[:keep])
+                ent[1] += keep
+            f['fired'] = True
+            f['fired_at'] = ent[1]
+            f['call_boundary'] = keep == 0
+            self.fired.append(f['kind'])
+            if f['kind'] == 'crash_write':
+                if self.real_exit:
+                    os._exit(137)
+                raise SimCrash(f'crash after {ent[1]} bytes of {ent[0]} (os.write)')
+            code = errno.ENOSPC if f['kind'] == 'enospc' else errno.EIO
+            raise OSError(code, os.strerror(code), ent[0])
+        w = REAL_OS_WRITE(fd, mv)
+        ent[1] += w
+        return w
+
+    def os_close(self, fd):
+        self.raw_fds.pop(fd, None)
+        return REAL_OS_CLOSE(fd)
+
     # -- the seam -----------------------------------------------------
     def open(self, file, mode='r', *args, **kwargs):
         if isinstance(file, int):
+            ent = self.raw_fds.get(file)
+            if ent is not None and 'b' in mode and any(c in mode for c in 'wax+'):
+                # os.fdopen() of a cache file descriptor: the stream is simulated like any other cache stream
+                sf = SimFile(self, ent[0], mode, file)
+                sf.written = ent[1]
+                return sf
             return REAL_OPEN(file, mode, *args, **kwargs)
         path = os.fspath(file)
         if isinstance(path, bytes):
@@ -260,7 +330,7 @@ class SimFS:
                         os.unlink(path)
                     except FileNotFoundError:
                         pass
-            fd = os.open(path, os.O_RDONLY)
+            fd = REAL_OS_OPEN(path, os.O_RDONLY)
             return SimFile(self, path, mode, fd)
         self.op_write_opens = getattr(self, 'op_write_opens', 0) + 1
         flags = os.O_WRONLY | os.O_CREAT
@@ -272,5 +342,5 @@ class SimFS:
             flags |= os.O_EXCL
         if '+' in mode:
             flags = (flags & ~os.O_WRONLY) | os.O_RDWR
-        fd = os.open(path, flags, 0o644)
+        fd = REAL_OS_OPEN(path, flags, 0o644)
         return SimFile(self, path, mode, fd)
